@@ -274,12 +274,34 @@ static void free_matcher(struct fetch *f)
 	}
 }
 
+static bool is_case_insensitive_option(const cJSON *matcher)
+{
+	return strncmp(matcher->string, case_insensitive, sizeof(case_insensitive)) == 0;
+}
+
+/*
+ * Counts exactly the entries add_matchers() will fill in, so that a
+ * repeated 'caseInsensitive' key can't leave a matcher slot empty.
+ */
+static unsigned int count_matchers(const cJSON *path)
+{
+	unsigned int number_of_matchers = 0;
+	const cJSON *matcher = path->child;
+	while (matcher) {
+		if (!is_case_insensitive_option(matcher)) {
+			number_of_matchers++;
+		}
+		matcher = matcher->next;
+	}
+	return number_of_matchers;
+}
+
 static int add_matchers(struct fetch *f, const cJSON *path, bool ignore_case)
 {
 	unsigned int match_index = 0;
 	const cJSON *matcher = path->child;
 	while (matcher) {
-		if (strncmp(matcher->string, case_insensitive, sizeof(case_insensitive)) != 0) {
+		if (!is_case_insensitive_option(matcher)) {
 			if (unlikely(create_matcher(f, matcher, match_index, ignore_case) < 0)) {
 				goto error;
 			}
@@ -333,15 +355,12 @@ static struct fetch *create_fetch(const struct peer *p, const cJSON *request, co
 		return NULL;
 	}
 
-	unsigned int number_of_matchers = cJSON_GetArraySize(path);
+	unsigned int number_of_matchers = count_matchers(path);
 
 	int ignore_case = 0;
 	const cJSON *match_ignore_case = get_case_insensitive(path);
-	if (match_ignore_case != NULL) {
-		number_of_matchers--;
-		if (match_ignore_case->type == cJSON_True) {
-			ignore_case = 1;
-		}
+	if ((match_ignore_case != NULL) && (match_ignore_case->type == cJSON_True)) {
+		ignore_case = 1;
 	}
 
 	if (unlikely(number_of_matchers == 0)) {
